@@ -86,7 +86,7 @@ def Ptr.make (h : Heap) (units unit alloc : Nat) : Heap × Option Ptr :=
 def Ptr.copy (h : Heap) (unit : Nat) (o : Ptr) : Heap × Option Ptr := Ptr.make h o.units unit (socc o.alloc)
 
 /-- move constructor: (new, moved-from source) -/
-def Ptr.moveCtor (o : Ptr) : Ptr × Ptr := (⟨o.blk, o.units, o.alloc⟩, { o with blk := none })
+def Ptr.moveCtor (o : Ptr) : Ptr × Ptr := (⟨o.blk, o.units, o.alloc⟩, { o with blk := none, units := 0 })
 
 /-- copy assignment `p = o` (p ≠ o); second component false when the allocation threw -/
 def Ptr.copyAssign (p : Ptr) (h : Heap) (c : ACfg) (unit : Nat) (o : Ptr) : Heap × Ptr × Bool :=
@@ -110,12 +110,12 @@ def Ptr.copyAssign (p : Ptr) (h : Heap) (c : ACfg) (unit : Nat) (o : Ptr) : Heap
 def Ptr.moveAssign (p : Ptr) (h : Heap) (c : ACfg) (unit : Nat) (o : Ptr) : Heap × Ptr × Ptr :=
   let h1 := p.dealloc h c unit
   let a := if c.pocma then o.alloc else p.alloc
-  (h1, ⟨o.blk, o.units, a⟩, { o with blk := none })
+  (h1, ⟨o.blk, o.units, a⟩, { o with blk := none, units := 0 })
 
 /-- `reset(std::move(o))` -/
 def Ptr.reset (p : Ptr) (h : Heap) (c : ACfg) (unit : Nat) (o : Ptr) : Heap × Ptr × Ptr :=
   let h1 := p.dealloc h c unit
-  (h1, ⟨o.blk, o.units, p.alloc⟩, { o with blk := none })
+  (h1, ⟨o.blk, o.units, p.alloc⟩, { o with blk := none, units := 0 })
 
 def Ptr.swap (c : ACfg) (a b : Ptr) : Ptr × Ptr :=
   if c.pocs then (⟨b.blk, b.units, b.alloc⟩, ⟨a.blk, a.units, a.alloc⟩)
